@@ -3,6 +3,7 @@ package checks
 import (
 	"encoding/json"
 	"fmt"
+	"sort"
 	"strings"
 
 	schema "github.com/jsightapi/jsight-schema-core"
@@ -199,15 +200,8 @@ func stProjects(c *core.Ctx, cfgQuick string, thoroughBody string) ([]model.Proj
 		files[cfg] = []byte(thoroughBody)
 	}
 	var ps []model.Project
-	res, err := tlc.Run(tlc.Opts{Module: "SchemaText", Cfg: cfg, Workers: 16, Files: files, Timeout: 0, HeapGB: 12, OnLine: func(l string) {
-		var p model.Project
-		if err := json.Unmarshal([]byte(l), &p); err != nil {
-			c.InfraError("bad project: %v", err)
-			return
-		}
-		p.Resolve()
-		ps = append(ps, p)
-	}})
+	var lines []string
+	res, err := tlc.Run(tlc.Opts{Module: "SchemaText", Cfg: cfg, Workers: 16, Files: files, Timeout: 0, HeapGB: 12, OnLine: func(l string) { lines = append(lines, l) }})
 	res.Cleanup()
 	if err != nil {
 		return nil, err
@@ -216,6 +210,17 @@ func stProjects(c *core.Ctx, cfgQuick string, thoroughBody string) ([]model.Proj
 		return nil, err
 	}
 	c.AddTLC(cfg, res)
+	// TLC's workers print in arrival order: sort, so that seeded samples of the projects are the same in every run
+	sort.Strings(lines)
+	for _, l := range lines {
+		var p model.Project
+		if err := json.Unmarshal([]byte(l), &p); err != nil {
+			c.InfraError("bad project: %v", err)
+			continue
+		}
+		p.Resolve()
+		ps = append(ps, p)
+	}
 	if len(ps) == 0 {
 		return nil, fmt.Errorf("no projects emitted")
 	}
